@@ -156,6 +156,10 @@ func (f *File) isDotImport(path string) bool {
 		// the "C" pseudo-package is always imported as C, so it can't be a dot-import
 		return false
 	}
+	if def, ok := f.imports[path]; ok && def.name != "" && def.name != "_" {
+		// once a path has been registered, later hints don't change how it's imported
+		return def.name == "."
+	}
 	if id, ok := f.hints[path]; ok {
 		return id.name == "." && id.alias
 	}
